@@ -730,3 +730,38 @@ def fortran_single_precision_literal(case):
                 except Exception:
                     return True
     return False
+
+
+def _uses_const(ast, name):
+    return any(n[0] == "const" and n[1] == name for n in _walk(ast))
+
+
+@predicate("F-02b")
+def torch_function_of_numeric_constant(case):
+    """torch backend: Euler's number E (printed by sympy as exp(1), E*E as exp(2)) or any function call on purely
+    numeric arguments reaches torch.exp/... as a Python number: TypeError 'argument must be Tensor' when called"""
+    if case.get("cfg", {}).get("backend") != "torch":
+        return False
+    for ast in _all_asts(case):
+        if _uses_const(ast, "E"):
+            return True
+        for n in _walk(ast):
+            if n[0] == "call" and all(_is_constant_expr(a) for a in n[2:]):
+                return True
+    return False
+
+
+@predicate("F-02f")
+def fortran_case_insensitive_name_clash(case):
+    """Fortran backend: Fortran is case-insensitive, so a user variable named e, pi or i (any case) collides with the
+    module constants E, PI, I, and two user variables that differ only in case collide with each other"""
+    if case.get("cfg", {}).get("backend", "fortran") != "fortran":
+        return False
+    spec = case.get("spec")
+    if not spec:
+        return False
+    names = [v[0] for od in spec["ops"].values() for v in od["vars"]]
+    low = [n.lower() for n in set(names)]
+    if len(set(low)) < len(low):
+        return True
+    return any(n in ("e", "pi", "i") for n in low)
